@@ -415,7 +415,7 @@ def parse_mir(text):
     i, n = 0, len(lines)
     while i < n:
         line = lines[i]
-        m1 = re.match(r"^const ([\w:]+): (\w+) = const (.+);$", line)
+        m1 = re.match(r"^const ([\w:]+): (.+?) = const (.+);$", line)
         if m1:
             funcs.setdefault("constval:" + m1.group(1), (m1.group(3), m1.group(2)))
         is_const = (line.startswith("const ") or line.startswith("static ")) and line.rstrip().endswith("= {")
